@@ -44,7 +44,7 @@ func init() {
 
 type bvIn struct {
 	Conf       bool
-	Asset      int // 0..9 base asset, 200+i token of the entropy attached to input i (reissuance input)
+	Asset      int // 0..9 base asset, 200+i token of the entropy attached to input i (reissuance input), 100+i the asset reissued at input i
 	Value      uint64
 	Iss        int // 0 none, 1 new issuance, 2 reissuance
 	IssValue   uint64
@@ -264,13 +264,18 @@ func bvBuildWorld(sh *bvShape, needProofs bool, v0 bool) *bvWorld {
 			wi.issAsset, _ = transaction.ComputeAsset(append([]byte{}, wi.entropy...))
 			wi.issToken, _ = transaction.ComputeReissuanceToken(append([]byte{}, wi.entropy...), 1)
 		}
-		if in.Asset >= 200 {
-			wi.asset = wi.issToken // reissuance input spends the token of its own entropy
-		} else {
-			wi.asset = bvBaseAsset(sh.Seed, in.Asset)
-		}
 		_ = i
 		w.ins = append(w.ins, wi)
+	}
+	for i, in := range sh.Ins {
+		switch {
+		case in.Asset >= 200:
+			w.ins[i].asset = w.ins[in.Asset-200].issToken // a reissuance input spends the token of its own entropy
+		case in.Asset >= 100:
+			w.ins[i].asset = w.ins[in.Asset-100].issAsset // an existing UTXO of the asset reissued at input Asset-100
+		default:
+			w.ins[i].asset = bvBaseAsset(sh.Seed, in.Asset)
+		}
 	}
 	for _, o := range sh.Outs {
 		var wo bvWOut
